@@ -132,4 +132,24 @@ def mpsc():
     return P
 
 
+def pct_bugs():
+    """Programs with a bug of known depth d (number of ordering constraints): (program, bug, depth)."""
+    out = []
+    # d = 1: the reader runs before the writer
+    out.append((prog(900, "pct_bug", [[op("spawn", v=1), op("spawn", v=2), op("join", v=1), op("join", v=2)],
+                                      [op("store", o=0, v=1)], [op("load", o=0)]], atomics=[0]), [[2, 1, 0]], 1))
+    # d = 2: the read lands between two writes
+    out.append((prog(901, "pct_bug", [[op("spawn", v=1), op("spawn", v=2), op("join", v=1), op("join", v=2)],
+                                      [op("store", o=0, v=1), op("store", o=0, v=2)], [op("load", o=0)]], atomics=[0]), [[2, 1, 1]], 2))
+    # d = 2 with more steps around
+    out.append((prog(902, "pct_bug", [[op("spawn", v=1), op("spawn", v=2), op("join", v=1), op("join", v=2)],
+                                      [op("load", o=1), op("store", o=0, v=1), op("store", o=0, v=2), op("load", o=1)],
+                                      [op("load", o=1), op("load", o=0), op("store", o=1, v=1)]], atomics=[0, 0]), [[2, 2, 1]], 2))
+    # d = 4: two reads interleaved with three writes
+    out.append((prog(903, "pct_bug", [[op("spawn", v=1), op("spawn", v=2), op("join", v=1), op("join", v=2)],
+                                      [op("store", o=0, v=1), op("store", o=0, v=2), op("store", o=0, v=3)],
+                                      [op("load", o=0), op("load", o=0)]], atomics=[0]), [[2, 1, 1], [2, 2, 2]], 4))
+    return out
+
+
 CORPUS = {"corpus_deadlock": deadlock, "corpus_locks": locks, "corpus_sync": sync, "corpus_mpsc": mpsc}
